@@ -565,7 +565,12 @@ def make_malformed(rng, p, sim, what):
                         p["ifaces"][k] = (i, ms + [nm])
                 for dd in p["impls"]:
                     if dd["iface"] == d["iface"] and nm not in [m["name"] for m in dd["methods"]]:
-                        dd["methods"].append({"name": nm, "body": [], "ret": e_c(1)})
+                        dd["methods"].append(gen_method(rng, nm, dd["iface"], sim.types[dd["type"]], [], False))
+                # if the program is (wrongly) accepted, the same method name is called through both interfaces
+                xs = [x for x, t in sim.conc.items() if t == d["type"]]
+                if xs:
+                    p["ops"] = [["b", "vc1", d["iface"], xs[0]], ["c", ["V", "vc1"], nm, 1],
+                                ["b", "vc2", e["iface"], xs[0]], ["c", ["V", "vc2"], nm, 2]] + p["ops"]
                 return p
         return None
     if what == "duplicate":
@@ -593,6 +598,52 @@ def make_malformed(rng, p, sim, what):
                 return p
         return None
     return None
+
+
+# ------------------------------------------------------------------ exhaustive small scope
+def small_world():
+    """a fixed world: 2 interfaces x 2 struct types, method / field / static names shared across types"""
+    f0, f1, s0, d = ["f", "f0"], ["f", "f1"], ["t", "s0"], ["a"]
+
+    def impl(i, t, fields, init, k):
+        tag = "%s.%s." % (i, t)
+        obs = [["f", f] for f in fields]
+        return {"iface": i, "type": t, "statics": [("s0", init)], "methods": [
+            {"name": "m0", "body": [["F", "f0", e_add(f0, d)], ["S", "s0", e_add(s0, e_c(k))], ["P", tag + "m0", obs + [s0]]],
+             "ret": e_add(f0, s0)},
+            {"name": "m1", "body": [["P", tag + "m1", obs + [d]]], "ret": e_mul(f0, e_c(k))},
+            {"name": "m3", "body": [["P", tag + "m3", obs + [s0]]], "ret": s0}]}
+    ifaces = [("I0", ["m0", "m1", "m3"]), ("I1", ["m2"])]
+    types = [{"name": "T0", "kind": "struct", "fields": ["f0", "f1"]}, {"name": "T1", "kind": "struct", "fields": ["f0"]}]
+    impls = [impl("I0", "T0", ["f0", "f1"], 10, 1), impl("I0", "T1", ["f0"], 50, 2),
+             {"iface": "I1", "type": "T0", "statics": [("s0", 90)], "methods": [
+                 {"name": "m2", "body": [["F", "f1", e_add(f1, d)], ["P", "I1.T0.m2", [f0, f1, d]]], "ret": f1}]}]
+    vars_ = [{"name": "xT00", "type": "T0", "kind": "conc", "init": [1, 2]},
+             {"name": "xT10", "type": "T1", "kind": "conc", "init": [5]},
+             {"name": "aT0", "type": "T0", "kind": "arr", "init": [[3, 4], [6, 7]]}]
+    helpers = [{"name": "hI0", "param": "pI0", "iface": "I0", "ptype": None, "calls": [("m0", 1), ("m3", 0)]},
+               {"name": "gT0", "param": "qT0", "iface": None, "ptype": "T0", "calls": [("m2", 1), ("m1", 0)]}]
+    prefix = [["b", "v0", "I0", "xT00"], ["b", "v1", "I1", "xT00"], ["b", "v2", "I0", "v0"],
+              ["p", "q0", "v0", "I0"], ["p", "q1", "xT00", "T0"]]
+    alphabet = [["b", "v0", "I0", "xT10"], ["b", "v0", "I0", "xT00"], ["b", "v2", "I0", "v0"], ["b", "v0", "I0", "v2"],
+                ["c", ["V", "v0"], "m0", 2], ["c", ["V", "v2"], "m0", 3], ["c", ["P", "q0"], "m0", 4], ["c", ["V", "v1"], "m2", 1],
+                ["c", ["V", "xT00"], "m2", 2], ["c", ["P", "q1"], "m2", 3], ["c", ["E", "aT0", 1], "m2", 4],
+                ["s", "xT00", "f0", 8], ["v", "hI0", "xT00", 1], ["v", "hI0", "v0", 2], ["v", "gT0", "xT00", 1],
+                ["p", "q0", "v2", "I0"]]
+    suffix = [["c", ["V", "v0"], "m3", 0], ["c", ["V", "v2"], "m3", 0], ["c", ["P", "q0"], "m1", 0], ["c", ["V", "v1"], "m2", 0],
+              ["c", ["E", "aT0", 1], "m1", 0], ["w", "xT00"], ["w", "xT10"], ["w", "aT0"]]
+    base = {"ifaces": ifaces, "types": types, "impls": impls, "vars": vars_, "helpers": helpers}
+    return base, prefix, alphabet, suffix
+
+
+def exhaustive_programs(maxlen):
+    import itertools
+    base, prefix, alphabet, suffix = small_world()
+    for n in range(0, maxlen + 1):
+        for seq in itertools.product(alphabet, repeat=n):
+            p = dict(base)
+            p["ops"] = prefix + [list(o) for o in seq] + suffix
+            yield p
 
 
 # ------------------------------------------------------------------ running both sides
@@ -671,9 +722,8 @@ def spec_run(p):
             return [], "duplicate"
         seen.append((d["iface"], d["type"]))
     for d in p["impls"]:
-        for e in impl.values():
-            if e["type"] == d["type"] and set(m["name"] for m in e["methods"]) & set(m["name"] for m in d["methods"]):
-                return [], "conflict"
+        # (two interfaces giving one type the same method name is not something the property forbids:
+        #  through an interface value the pair decides; only a struct-typed receiver is then ambiguous)
         impl[(d["iface"], d["type"])] = d
     statics = {(d["iface"], d["type"], n): z for d in p["impls"] for n, z in d["statics"]}
     out = []
@@ -705,10 +755,11 @@ def spec_run(p):
 
     def find_method(t, m, via_iface):
         cands = [dd for (i, tt), dd in impl.items() if tt == t and (via_iface is None or i == via_iface)]
-        for dd in cands:
-            for mm in dd["methods"]:
-                if mm["name"] == m:
-                    return dd, mm
+        hits = [(dd, mm) for dd in cands for mm in dd["methods"] if mm["name"] == m]
+        if len(hits) > 1:
+            raise Stop("ambiguous")
+        if hits:
+            return hits[0]
         raise Stop("undeffunc")
 
     def call(cell, m, d):
@@ -783,6 +834,40 @@ def spec_run(p):
 
 
 # ------------------------------------------------------------------ shrinking
+def well_scoped(p):
+    """every name an operation mentions is declared before it (shrinking must not invent scope errors)"""
+    known = {v["name"] for v in p["vars"]}
+    arrs = {v["name"]: len(v["init"]) for v in p["vars"] if v["kind"] == "arr"}
+    helpers = {h["name"] for h in p["helpers"]}
+    types = {t["name"] for t in p["types"]}
+    if any(d["type"] not in types for d in p["impls"]) or any(v["type"] not in types for v in p["vars"]):
+        return False
+    for o in p["ops"]:
+        k = o[0]
+        if k == "b":
+            if o[3] not in known:
+                return False
+            known.add(o[1])
+        elif k == "p":
+            if o[2] not in known:
+                return False
+            known.add(o[1])
+        elif k == "c":
+            r = o[1]
+            if r[1] not in known or (r[0] == "E" and (r[1] not in arrs or r[2] >= arrs[r[1]])):
+                return False
+        elif k == "v":
+            if o[1] not in helpers or o[2] not in known:
+                return False
+        elif k in ("s", "w"):
+            if o[1] not in known:
+                return False
+        elif k == "e":
+            if o[1] not in arrs or o[2] >= arrs[o[1]]:
+                return False
+    return True
+
+
 def shrink(p, bad, budget=250):
     """greedy deletion of operations, helpers' calls, statements, impls, variables while `bad(p)` holds"""
     p = json.loads(json.dumps(p))
@@ -790,7 +875,7 @@ def shrink(p, bad, budget=250):
 
     def ok(q):
         n[0] += 1
-        if n[0] > budget:
+        if n[0] > budget or not well_scoped(q):
             return False
         try:
             return bad(q)
@@ -866,6 +951,11 @@ def run(rep):
     seed, tier = rep.seed, rep.tier
     cq = common.coq_check_props(PROP)
     common.proof_coverage(rep, cq)
+    if tier == "thorough" and cq["ok"]:
+        okc, summ = common.coqchk(PROP)
+        rep.coverage["coqchk"] = {"ok": okc, "context_summary": summ[:1500]}
+        if not okc:
+            rep.violation("coqchk", {"output": summ[-3000:]}, "coqchk rejects the compiled C12 development", True)
     if not cq["ok"]:
         rep.violation("proof", {"theorem": cq["failed_theorem"], "log": cq["log"][-3000:]},
                       "proof obligation %s no longer checks" % cq["failed_theorem"], True)
@@ -878,9 +968,15 @@ def run(rep):
         for c in json.load(open(corpus)):
             progs.append(c)
             origin.append("corpus")
-    n_main = 700 if tier == "quick" else 12000
-    n_small = 300 if tier == "quick" else 4000
-    n_mal = 150 if tier == "quick" else 2500
+    n_main = 2500 if tier == "quick" else 50000
+    n_small = 1000 if tier == "quick" else 15000
+    n_mal = 500 if tier == "quick" else 8000
+    exh_len = 2 if tier == "quick" else 4
+    n_exh = 0
+    for p in exhaustive_programs(exh_len):
+        progs.append(p)
+        origin.append("exhaustive")
+        n_exh += 1
     for k in range(n_small):
         rng = rng_for(seed, "c12-small", k)
         progs.append(gen_program(rng, rng.randint(2, 7), small=True))
@@ -910,7 +1006,8 @@ def run(rep):
     impls = common.pmap(lambda p: run_impl(impl, p), progs)
 
     # registration-order independence: the same programs with their impl blocks permuted
-    perm_idx = [k for k in range(len(progs)) if len(progs[k]["impls"]) >= 2 and (tier != "quick" or k % 3 == 0)]
+    perm_idx = [k for k in range(len(progs)) if len(progs[k]["impls"]) >= 2 and
+                (k % 3 == 0 if origin[k] != "exhaustive" else k % 40 == 0)]
     orders = []
     for k in perm_idx:
         rng = rng_for(seed, "c12-perm", k)
@@ -938,11 +1035,10 @@ def run(rep):
     bad = [(k, "corr") for k in range(len(progs)) if not agree(models[k], impls[k])]
     badp = []
     for j, k in enumerate(perm_idx):
-        if not agree(perm_model[j], perm_impl[j]) or perm_impl[j] != impls[k]:
-            # duplicate/conflict programs may legitimately report another error class order; compare as the model does
-            if agree(perm_model[j], perm_impl[j]) and perm_model[j] != models[k]:
-                continue
-            badp.append(j)
+        if perm_model[j] != models[k]:
+            continue        # rejected programs may name another first error in another order (the model does too)
+        if perm_impl[j] != impls[k]:
+            badp.append(j)  # same program, same model answer, main prints something else: order dependence
     rep.coverage.update({
         "evaluations": len(progs) + len(perm_idx), "distinct_nontrivial": nontrivial,
         "rule": "generated Cb program run on main (stdout lines + error class) vs the extracted Coq model on the same program; "
@@ -951,21 +1047,31 @@ def run(rep):
         "permuted_impl_order_runs": len(perm_idx), "dropped_outside_model_domain": dropped,
         "disagreements": len(bad) + len(badp),
         "samples": [{"program": to_cb(progs[k]), "model": models[k], "impl": impls[k]} for k in ([0, len(progs) // 2] if progs else [])],
-        "exhaustive": False,
+        "exhaustive": True,
+        "exhaustive_space": "fixed world (2 interfaces x 2 types, shared method/field/static names): every sequence of length <= %d "
+                            "over 16 operations (re-binding, calls through variable / copy / pointer / array element / parameter, direct "
+                            "write, pointer re-targeting) between a fixed prefix and an observing suffix (%d programs)" % (exh_len, n_exh),
     })
 
-    def bad_fn(q):
+    def contradicts_spec(q, i):
+        s = spec_run(q)
+        return s[1] != "ambiguous" and (s[0] != i[0] or s[1] != i[1])
+
+    def bad_fn(q, need_concrete=False):
         (m,) = run_model([q])
         if m[1] in ("range", "bad", "unmodelled"):
             return False
-        return not agree(m, run_impl(impl, q))
-    bad.sort(key=lambda b: len(progs[b[0]]["ops"]))
+        i = run_impl(impl, q)
+        return (not agree(m, i)) and (not need_concrete or contradicts_spec(q, i))
+    # disagreements on which main also contradicts the property's own oracle first, then the shortest
+    bad.sort(key=lambda b: (not contradicts_spec(progs[b[0]], impls[b[0]]), len(progs[b[0]]["ops"])))
     for k, _ in bad[:4]:
-        q = shrink(progs[k], bad_fn)
+        c0 = contradicts_spec(progs[k], impls[k])
+        q = shrink(progs[k], lambda q2: bad_fn(q2, c0))
         (m,) = run_model([q])
         i = run_impl(impl, q)
         s = spec_run(q)
-        concrete = (s[0] != i[0] or s[1] != i[1])
+        concrete = contradicts_spec(q, i)
         rep.violation("corr", {"program": q, "source": to_cb(q), "model": m, "impl": i, "spec": s, "origin": origin[k],
                                "broken": "correspondence Model.run_program = main (carrier of every C12 theorem)"},
                       "main and the proved model disagree on a generated interface program "
@@ -975,7 +1081,7 @@ def run(rep):
         k = perm_idx[j]
         rep.violation("perm", {"program": progs[k], "source": to_cb(progs[k]), "permuted_source": to_cb(progs[k], orders[j]),
                                "order": orders[j], "impl": impls[k], "impl_permuted": perm_impl[j], "model_permuted": perm_model[j]},
-                      "permuting the impl blocks of a program changes what main prints (dispatch depends on registration order)")
+                      "permuting the impl blocks of a program changes what main prints (the result depends on the registration order of the impl blocks)")
 
     # known findings: replay each stored program
     for f in common.known_findings(PROP):
